@@ -536,6 +536,9 @@ func verifModelBinaryWrite(w io.Writer, order binary.ByteOrder, data any) error 
 //@ requires s != nil
 //@ ensures err == nil ==> $poolBalance == old($poolBalance) [C11]
 //@ ensures num >= old(s.numDocs) ==> id == nil && err == nil [C02]
+// the id handed out is a window of the segment's own (immutable) memory: the head of the document's stored block -
+// never bytes of the pooled scratch context, which the next reader overwrites
+//@ local ensures err == nil && id != nil ==> base(id) == base(compressed) && off(id) == off(compressed) [C02,C11]
 //@ end
 
 // ---- C06: single-hit dictionary entries ----
@@ -575,9 +578,16 @@ func lemma1HitDiscriminator(docNum, normBits uint64) {
 //@ thin
 //@ tags [C13]
 //@ requires w != nil
+// the merging goroutine holds no lock (so taking a cache mutex in thesaurus() cannot self-deadlock)
+//@ requires forall r ref :: {muHeld(r)} muHeld(r) == 0 [C11]
+//@ loop 1 invariant forall r ref :: {muHeld(r)} muHeld(r) == 0 [C11]
+//@ loop 2 invariant forall r ref :: {muHeld(r)} muHeld(r) == 0 [C11]
 //@ assert (*Thesaurus).synonymsListFromOffset#1 : !bm64Empty(newRoaring) ==> bytesEq(row(prevTerm), off(prevTerm), len(prevTerm), row(term), off(term), len(term)) [C13]
 //@ assert (*vellum.Builder).Close#1 : bm64Empty(newRoaring) [C13]
 //@ assert newEnumerator#1 : len(termSynMap) == 0 && newSynonymID == 0 [C09,C13]
+// the FST builder is always re-pointed at an emptied buffer (bytes left from the previous thesaurus would be written
+// in front of the next one)
+//@ assert (*vellum.Builder).Reset#1 : typeis($w, ptr_bytes_DOT_Buffer) && len(ptr_bytes_DOT_Buffer(payload($w)).buf) == 0 && ptr_bytes_DOT_Buffer(payload($w)).off == 0 [C09,C13]
 // an input whose thesaurus FST is empty (its iterator reports exhaustion at once) does not abort the merge
 //@ tolerates vellum.ErrIteratorDone as err from (*vellum.FST).Iterator [C13]
 // the per-thesaurus parallel slices (iterators, thesauri, deletion bitmaps, doc-number tables) are rebuilt for every
@@ -970,6 +980,7 @@ func lemma1HitDiscriminator(docNum, normBits uint64) {
 // for every field and stay aligned: entry j of each belongs to the j-th input segment that has this field
 //@ loop 2 invariant len(drops) == len(itrs) && len(dicts) == len(itrs) && len(newDocNums) == len(itrs) && len(segmentsInFocus) == len(itrs) && len(itrs) <= $k [C05,C06]
 //@ assert newEnumerator#1 : len(drops) == len(itrs) && len(dicts) == len(itrs) && len(newDocNums) == len(itrs) && len(segmentsInFocus) == len(itrs) [C05,C06]
+//@ assert (*vellum.Builder).Reset#1 : typeis($w, ptr_bytes_DOT_Buffer) && len(ptr_bytes_DOT_Buffer(payload($w)).buf) == 0 && ptr_bytes_DOT_Buffer(payload($w)).off == 0 [C06,C08,C09]
 // an input whose dictionary for the field is empty (its iterator reports exhaustion at once) does not abort the merge
 //@ tolerates vellum.ErrIteratorDone as err from (*vellum.FST).Iterator [C05,C06]
 //@ assert (*Dictionary).postingsListFromOffset#2 : $d == dicts[itrI] && $except == drops[itrI] && $postingsOffset == postingsOffset [C06,C08]
@@ -994,6 +1005,7 @@ func lemma1HitDiscriminator(docNum, normBits uint64) {
 //@ thin
 //@ tags [C18]
 //@ wf requires w != nil
+//@ requires forall r ref :: {muHeld(r)} muHeld(r) == 0 [C11]
 //@ ensures chanClosed(closeCh) && !old(chanClosed(closeCh)) ==> err == seg.ErrClosed
 //@ ensures old(chanClosed(closeCh)) ==> chanClosed(closeCh)
 //@ propagates err from mergeAndPersistSynonymSection [C17,C18]
@@ -1494,15 +1506,153 @@ func lemmaUvLenRange(a []byte, o int) {}
 //@ propagates err from writeSynonyms, writeSynTermMap, (*CountHashWriter).Write, (*vellum.Builder).Insert, (*vellum.Builder).Close [C17]
 //@ end
 
+// ---- C04 / C09: the fields section ----
+// per field: its name (length-prefixed), the number of sections, and one (section id, address) pair per registered
+// section, the address being what that section recorded for this field id; then the count of fields and one offset per
+// field - the offset at which that field's record started
+//@ func section.AddrForField(this, opaque, fieldID) returns (addr)
+//@ trusted
+//@ modifies nothing
+//@ end
+//@ func persistFieldsSection returns (rv, err)
+//@ thin
+//@ tags [C04,C09]
+//@ wf requires w != nil
+//@ loop 1 step prev(len(fieldsOffsets)) <= 0x3fffffffffffff ==> len(fieldsOffsets) == prev(len(fieldsOffsets)) + 1 [C04,C09]
+//@ assert writeUvarints#1 : len($vals) == 1 && int($vals[0]) == len(fieldName) && len(fieldsOffsets) >= 1 && fieldsOffsets[len(fieldsOffsets)-1] == uint64(w.n) [C04,C09]
+//@ assert (*CountHashWriter).Write#1 : len($b) == len(fieldName) [C04,C09]
+//@ assert writeUvarints#2 : len($vals) == 1 && int($vals[0]) == len(segmentSections) [C04,C09]
+//@ assert section.AddrForField#1 : $fieldID == fieldID && $opaque == opaque && $this == segmentSectionImpl [C04,C09]
+//@ assert writeUvarints#3 : len($vals) == 1 && int($vals[0]) == len(fieldsInv) && rv == uint64(w.n) [C04,C09]
+//@ propagates err from writeUvarints, (*CountHashWriter).Write [C17]
+//@ end
+
+// reader of the fields section: record k of the index (8 bytes each, after the count) is field id k
+//@ func (*SegmentBase).loadFieldsNew returns (err)
+//@ thin
+//@ tags [C02,C04,C09]
+//@ assert (*SegmentBase).loadFieldNew#1 : int($fieldID) == int(fieldID) % 65536 && $pos == addr && $fieldSectionMap == fieldSectionMap [C02,C04,C09]
+//@ loop 1 step prev(fieldID) < 0xffffffffffffff && prev(pos) < 0xffffffffffffff && prev(len(s.fieldsSectionsMap)) < 0xffffffffffffff ==> fieldID == prev(fieldID) + 1 && pos == prev(pos) + 8 && len(s.fieldsSectionsMap) == prev(len(s.fieldsSectionsMap)) + 1 [C02,C04,C09]
+//@ loop 1 early err != nil [C02,C04,C09]
+// data well-formedness (a wf precondition, i.e. assumed by callers and reported): the field-count varint lies inside the
+// file - the window handed to the decoder is clipped to the end of the file when fewer than 10 bytes remain
+//@ wf requires s.sectionsIndexOffset <= 0x3fffffffffffff00 && int(s.sectionsIndexOffset) <= len(s.mem) && uvLen(row(s.mem), off(s.mem) + int(s.sectionsIndexOffset)) <= len(s.mem) - int(s.sectionsIndexOffset)
+//@ propagates err from (*SegmentBase).loadFieldNew [C04]
+//@ end
+
+// ---- C03 / C09: a field's doc-value block and its reader ----
+// layout: the compressed chunks, one end offset per chunk as varints, then two fixed 8-byte numbers - the length of that
+// offset table and the number of chunks
+//@ func (*chunkedContentCoder).Write returns (tw, err)
+//@ thin
+//@ tags [C03,C09]
+//@ wf requires c != nil && c.w != nil
+//@ assert io.Writer.Write#1 : base($p) == base(c.final) && off($p) == off(c.final) && len($p) == len(c.final) [C03,C09]
+//@ assert modifyLengthsToEndOffsets#1 : $lengths == c.chunkLens [C03,C09]
+//@ assert encoding/binary.PutUvarint#1 : $x == chunkOffset && base($buf) == base(c.final) [C03,C09]
+//@ assert (encoding/binary.bigEndian).PutUint64#1 : $v == chunkOffsetsLen && base($b) == base(c.final) && len($b) == 8 [C03,C09]
+//@ assert io.Writer.Write#3 : len($p) == 8 && base($p) == base(c.final) [C03,C09]
+//@ assert (encoding/binary.bigEndian).PutUint64#2 : int($v) == len(c.chunkLens) && base($b) == base(c.final) && len($b) == 8 [C03,C09]
+//@ assert io.Writer.Write#4 : len($p) == 8 && base($p) == base(c.final) [C03,C09]
+//@ propagates err from io.Writer.Write [C17]
+//@ end
+
+// the reader takes the two fixed numbers from the last 16 bytes of the block, finds the offset table by its length and
+// decodes exactly one offset per chunk, in order
+//@ func (*SegmentBase).loadFieldDocValueReader returns (r, err)
+//@ thin
+//@ tags [C03,C04,C09]
+//@ assert (encoding/binary.bigEndian).Uint64#1 : base($b) == base(s.mem) && off($b) == off(s.mem) + int(fieldDvLocEnd) - 8 && len($b) == 8 [C03,C09]
+//@ assert (encoding/binary.bigEndian).Uint64#2 : base($b) == base(s.mem) && off($b) == off(s.mem) + int(fieldDvLocEnd) - 16 && len($b) == 8 [C03,C09]
+//@ loop 1 step prev(offset) <= 0x3fffffffffffff00 && 0 <= prev(i) && prev(i) < len(fdvIter.chunkOffsets) ==> i == prev(i) + 1 && fdvIter.chunkOffsets[prev(i)] == loc && offset == prev(offset) + uint64(read) [C03,C09]
+//@ loop 1 early err != nil [C03,C04]
+//@ ensures fieldDvLocStart == fieldNotUninverted ==> r == nil && err == nil [C03,C04]
+//@ local ensures err == nil && r != nil ==> r.dvDataLoc == fieldDvLocStart && r.curChunkNum == 0xffffffffffffffff [C03,C04,C09]
+//@ end
+
+// the doc-value replay used by merges: every chunk of the reader, in order; within a chunk every header entry, each
+// with the bytes between the previous entry's end offset and its own
+//@ func (*docValueReader).iterateAllDocValues returns (err)
+//@ thin
+//@ tags [C03,C06]
+//@ wf requires di != nil && s != nil
+//@ loop 1 invariant 0 <= i [C03,C06]
+//@ assert (*docValueReader).loadDvChunk#1 : int($chunkNumber) == i && $s == s && $di == di [C03,C06]
+//@ assert github.com/golang/snappy.Decode#1 : base($src) == base(di.curChunkData) && off($src) == off(di.curChunkData) && len($src) == len(di.curChunkData) [C03,C06]
+//@ loop 1 step i == prev(i) + 1 [C03,C06]
+//@ loop 1 early err != nil [C03,C06]
+//@ end
+
+// ---- C12 / C13 / C09: the synonym postings block and the synonym-term table ----
+//@ func writeSynonyms returns (offset, err)
+//@ thin
+//@ tags [C09,C12,C13]
+//@ wf requires w != nil && postings != nil
+//@ assert encoding/binary.PutUvarint#1 : int($x) == len(buf) && postingsOffset == uint64(w.n) [C09,C12,C13]
+//@ assert (*CountHashWriter).Write#1 : len($b) == n && base($b) == base(bufMaxVarintLen64) && off($b) == off(bufMaxVarintLen64) [C09,C12,C13]
+//@ assert (*CountHashWriter).Write#2 : len($b) == len(buf) && base($b) == base(buf) && off($b) == off(buf) [C09,C12,C13]
+//@ local ensures err == nil && termCardinality > 0 ==> offset == postingsOffset [C09,C12,C13]
+//@ propagates err from (*roaring/v2/roaring64.Bitmap).ToBytes, (*CountHashWriter).Write [C17]
+//@ end
+
+// the table: its number of entries, then per entry the id, the term's length and the term's bytes
+//@ func writeSynTermMap returns (err)
+//@ thin
+//@ tags [C09,C12,C13]
+//@ wf requires w != nil
+//@ assert encoding/binary.PutUvarint#1 : int($x) == len(synTermMap) [C09,C12,C13]
+//@ assert encoding/binary.PutUvarint#2 : $x == uint64(sid) && term == mapget(synTermMap, sid) [C09,C12,C13]
+//@ assert encoding/binary.PutUvarint#3 : int($x) == len(term) [C09,C12,C13]
+//@ assert (*CountHashWriter).Write#4 : len($b) == len(term) [C09,C12,C13]
+//@ propagates err from (*CountHashWriter).Write [C17]
+//@ end
+
 // ---- C12: thesaurus lookups ----
+// opening a thesaurus: the field's synonym-section address leads (past the two doc-value markers) to the offset of the
+// FST block; that block, looked up under the field's own id in the cache, provides the FST and the id-to-term table
+//@ func (*SegmentBase).thesaurus returns (rv, err)
+//@ thin
+//@ tags [C12]
+//@ wf requires sb != nil && sb.synIndexCache != nil
+//@ requires muHeld(sb.synIndexCache.m) == 0 [C11,C12]
+//@ assert (*synonymIndexCache).loadOrCreate#1 : $fieldID == fieldIDPlus1 - 1 && base($mem) == base(sb.mem) && (thesLoc <= 0x3fffffffffffff00 ==> off($mem) == off(sb.mem) + int(thesLoc)) [C12]
+//@ assert (*vellum.FST).Reader#1 : $f == fst [C12]
+//@ ensures old(mapget(sb.fieldsMap, name)) == 0 ==> rv == nil && err == nil [C12]
+//@ local ensures err == nil && rv != nil ==> rv.sb == sb && rv.fieldID == fieldIDPlus1 - 1 && rv.fst == fst && rv.synIDTermMap == synTermMap [C12]
+//@ ensures muHeld(sb.synIndexCache.m) == 0 [C11,C12]
+//@ modifies maps, alloc, new Thesaurus.*, synonymIndexCache.cache[sb.synIndexCache], new synonymCacheEntry.*, cell(ptr_vellum.FST), cell(error), raw M!map[uint32][]uint8, ghost muHeld[addr(sb.synIndexCache.m)], new ghost rdFst, elems(any)
+//@ end
+
+// a term lookup: absent thesaurus data or an absent term give the shared empty list (or the caller's list, emptied);
+// a present term is read from the offset the FST holds for exactly this term, with the caller's exclusion and list
+//@ func (*Thesaurus).synonymsList returns (r, err)
+//@ thin
+//@ tags [C12]
+//@ wf requires t != nil
+//@ assert (*vellum.Reader).Get#1 : base($input) == base(term) && off($input) == off(term) && len($input) == len(term) [C12]
+//@ assert (*Thesaurus).synonymsListFromOffset#1 : $synonymsOffset == synonymsOffset && $except == except && $rv == rv && $t == t [C12]
+//@ assert (*Thesaurus).synonymsListInit#1 : $except == except && $rv == rv && $t == t [C12]
+//@ assert (*Thesaurus).synonymsListInit#2 : $except == except && $rv == rv && $t == t [C12]
+//@ ensures old(t.fstReader) == nil && (rv == nil || rv == emptySynonymsList) ==> r == emptySynonymsList && err == nil [C12]
+//@ end
+
+// one synonym of an iteration: the pair the cursor produced, the term being the one the thesaurus' table holds for its id
+//@ func (*SynonymsIterator).next returns (syn, err)
+//@ thin
+//@ tags [C12]
+//@ wf requires i != nil && (i.Actual != nil ==> 0 <= it64Pos(i.Actual) && it64Pos(i.Actual) <= it64Len(i.Actual))
+//@ assert (*SynonymsIterator).nextSynonym#1 : $i == i [C12]
+//@ local ensures err == nil && syn != nil ==> i.nextSyn.docNum == docNum [C12]
+//@ end
+
 
 // a field that is not a thesaurus of this build has no thesaurus address (Thesaurus(name) then answers "empty")
 //@ func (*synonymIndexSection).AddrForField returns (addr)
 //@ thin
-//@ tags [C12]
-//@ ensures synIndexOpaque == nil || synIndexOpaque.FieldIDtoThesaurusID == nil ==> addr == 0
-//@ ensures synIndexOpaque != nil && synIndexOpaque.FieldIDtoThesaurusID != nil && !haskey(synIndexOpaque.FieldIDtoThesaurusID, uint16(fieldID)) ==> addr == 0
-//@ ensures synIndexOpaque != nil && synIndexOpaque.FieldIDtoThesaurusID != nil && haskey(synIndexOpaque.FieldIDtoThesaurusID, uint16(fieldID)) && haskey(synIndexOpaque.thesaurusAddrs, mapget(synIndexOpaque.FieldIDtoThesaurusID, uint16(fieldID))) ==> addr == mapget(synIndexOpaque.thesaurusAddrs, mapget(synIndexOpaque.FieldIDtoThesaurusID, uint16(fieldID)))
+//@ tags [C12,C13]
+//@ local ensures synIndexOpaque == nil || synIndexOpaque.FieldIDtoThesaurusID == nil ==> addr == 0
+//@ local ensures synIndexOpaque != nil && synIndexOpaque.FieldIDtoThesaurusID != nil && !haskey(synIndexOpaque.FieldIDtoThesaurusID, uint16(fieldID)) ==> addr == 0
+//@ local ensures synIndexOpaque != nil && synIndexOpaque.FieldIDtoThesaurusID != nil && haskey(synIndexOpaque.FieldIDtoThesaurusID, uint16(fieldID)) && haskey(synIndexOpaque.thesaurusAddrs, mapget(synIndexOpaque.FieldIDtoThesaurusID, uint16(fieldID))) ==> addr == mapget(synIndexOpaque.thesaurusAddrs, mapget(synIndexOpaque.FieldIDtoThesaurusID, uint16(fieldID)))
 //@ end
 
 
@@ -1729,6 +1879,11 @@ func lemmaSynonymCodeRoundTrip(synonymID, docID uint32) {
 //@ requires postItr != nil && itInv(postItr) [C06,C07]
 //@ wf requires itGeneral(postItr) ==> itWF(postItr) && itSubset(postItr) && postItr.includeFreqNorm
 //@ loop 1 invariant postItr == old(postItr) && (err == nil ==> itInv(postItr)) && coderSized(tfEncoder) && coderSized(locEncoder) [C06,C07]
+// byte-copy path: a hit's record bytes and its location bytes go, each into its own stream, under the hit's NEW
+// document number - the number also added to the merged postings
+//@ assert (*roaring/v2.Bitmap).Add#1 : $rb == newRoaring && uint64($x) == hitNewDocNum % 4294967296 && (0 <= int(nextDocNum) && int(nextDocNum) < len(newDocNums) ==> hitNewDocNum == newDocNums[int(nextDocNum)]) [C05,C06]
+//@ assert (*chunkedIntCoder).AddBytes#1 : $c == tfEncoder && $docNum == hitNewDocNum && base($buf) == base(nextFreqNormBytes) && off($buf) == off(nextFreqNormBytes) && len($buf) == len(nextFreqNormBytes) [C06,C09]
+//@ assert (*chunkedIntCoder).AddBytes#2 : $c == locEncoder && $docNum == hitNewDocNum && base($buf) == base(nextLocBytes) && off($buf) == off(nextLocBytes) && len($buf) == len(nextLocBytes) [C06,C09]
 //@ ensures coderSized(tfEncoder) && coderSized(locEncoder)
 //@ modifies *, ghost bmSet, ghost itSet
 //@ end
